@@ -90,6 +90,10 @@ pub struct State {
     pub read_faults: bool,
     /// (thread, path) of the reads seen while `read_faults` is on
     pub reads: Vec<(String, String)>,
+    /// schedule jitter (0 = off): a pseudo-random eighth of the storage operations of the background threads (updater,
+    /// merge, indexing workers) is preceded by a pause of up to 1.5 ms, so that their relative order varies from run to
+    /// run in other ways than the OS alone would produce.  Steering only.
+    pub jitter: u64,
 }
 
 #[derive(Clone)]
@@ -181,6 +185,9 @@ impl SimDir {
         let mut st = self.st.lock().unwrap();
         st.read_faults = rules.iter().any(|r| r.kinds.contains(&K::Read));
         st.faults = rules.into_iter().map(|r| (r, 0)).collect();
+    }
+    pub fn set_jitter(&self, seed: u64) {
+        self.st.lock().unwrap().jitter = seed;
     }
     pub fn clear_faults(&self) {
         // (files opened while a read rule was armed keep consulting the - now empty - plan)
@@ -290,6 +297,25 @@ impl SimDir {
             self.gate(kind, path);
         }
         let thread = thread_name();
+        let pause = {
+            let st = self.st.lock().unwrap();
+            if st.jitter != 0 && kind != K::Read && kind != K::Exists && (thread.starts_with("segment_updater") || thread.starts_with("merge_thread") || thread.starts_with("thrd-tantivy-index")) {
+                let mut h = st.jitter ^ (st.op_count as u64).wrapping_mul(0x9E37_79B9_7F4A_7C15) ^ (thread.len() as u64) << 40 ^ (thread.as_bytes().last().copied().unwrap_or(0) as u64) << 32;
+                h ^= h >> 29;
+                h = h.wrapping_mul(0xBF58_476D_1CE4_E5B9);
+                h ^= h >> 32;
+                if h % 8 == 0 {
+                    Some((h >> 8) % 1500)
+                } else {
+                    None
+                }
+            } else {
+                None
+            }
+        };
+        if let Some(us) = pause {
+            std::thread::sleep(Duration::from_micros(us));
+        }
         let mut st = self.st.lock().unwrap();
         st.op_count += 1;
         if kind == K::Read {
